@@ -1155,9 +1155,10 @@ func (s *State) findGroupOnDevice(name string) {
 	if gb.ready {
 		return
 	}
+	ma := s.a.lookup["object-group"]
 GROUP:
-	for _, l := range s.a.lookup["object-group"] {
-		ga := l[0]
+	for _, aName := range slices.Sorted(maps.Keys(ma)) {
+		ga := ma[aName][0]
 		if ga.parsed != gb.parsed {
 			// Type of object-group differs.
 			continue
